@@ -100,7 +100,7 @@ func unpackTokenInfo(psd *pkcs7.ContentInfoSignedData) (*TSTInfo, error) {
 	infobytes, err := psd.Content.ContentInfo.Bytes()
 	if err != nil {
 		return nil, fmt.Errorf("unpack TSTInfo: %w", err)
-	} else if infobytes[0] == 0x04 {
+	} else if len(infobytes) > 0 && infobytes[0] == 0x04 {
 		// unwrap dummy OCTET STRING
 		_, err = asn1.Unmarshal(infobytes, &infobytes)
 		if err != nil {
